@@ -147,7 +147,9 @@ def audit(prop: str, extra_allowed=lambda thm, ax: False, modules=None):
         names += theorem_names(LEAN / "Pybes3Verif" / "Props" / f"{m}.lean")
     problems = []
     # forbidden-construct grep over the whole project (comments stripped)
-    for f in list((LEAN / "Pybes3Verif").rglob("*.lean")) + list((LEAN / "Driver").glob("*.lean")):
+    # every module of the library (import closure of the root file; files that nothing imports are not part of it) and the drivers
+    lib_files = [LEAN / (m.replace(".", "/") + ".lean") for m in module_closure(["Pybes3Verif"] + [f"Pybes3Verif.Props.{m}" for m in modules])]
+    for f in [x for x in lib_files if x.exists()] + list((LEAN / "Driver").glob("*.lean")):
         m = FORBIDDEN.search(strip_lean_comments(f.read_text()))
         if m:
             problems.append(f"forbidden construct {m.group(0)!r} in {f.relative_to(LEAN)}")
